@@ -966,6 +966,91 @@ func leaveWhileReplyInFlight(name string, k int, bound int) *vx.Scenario {
 	return sc
 }
 
+// ---------------------------------------------------------------- 7. emits on a namespace that is not joined, next to one that is
+//
+// Two namespaces on one Manager; /b is connected. /a is not joined - never connected, left with Disconnect(), or
+// its CONNECT is still held by a slow middleware - and the application emits on it all the same: a plain event
+// (kept until /a is connected), a volatile one (dropped), one with an ack. Nothing addressed to /a may reach the
+// server before /a is joined (it would close the shared connection): /b stays connected and goes on working.
+func emitOnUnjoinedNamespace(name, state string, bound int) *vx.Scenario {
+	sc := &vx.Scenario{Name: name, Bound: bound, Horizon: 60 * time.Second}
+	sc.Body = func(e *vsched.Exec) func() vx.Result {
+		vsched.SetExploring(false)
+		srv, mgr, _ := vrig.NewSioPair(nil, nil)
+		var v vsched.Var
+		got := map[string][]string{}
+		var cdisc []string
+		gate := make(chan struct{})
+		for _, ns := range []string{"/a", "/b"} {
+			ns := ns
+			srv.Of(ns).Use(func(s sio.ServerSocket, h *sio.Handshake) any {
+				if ns == "/a" && state == "connect-pending" {
+					vsched.RecvStmt(gate) // slow middleware: the client's CONNECT stays pending
+				}
+				s.OnEvent("ev", func(tag string) { v.Do(func() { got[ns] = append(got[ns], tag) }) })
+				s.OnEvent("eva", func(tag string, ack func(string)) { v.Do(func() { got[ns] = append(got[ns], tag) }); ack("ok") })
+				return nil
+			})
+			srv.Of(ns).OnConnection(func(s sio.ServerSocket) {})
+		}
+		up := map[string]int{}
+		sock := map[string]sio.ClientSocket{}
+		for _, ns := range []string{"/a", "/b"} {
+			ns := ns
+			s := mgr.Socket(ns, nil)
+			s.OnConnect(func() { v.Do(func() { up[ns]++ }) })
+			s.OnDisconnect(func(r sio.Reason) { v.Do(func() { cdisc = append(cdisc, ns+":"+string(r)) }) })
+			sock[ns] = s
+		}
+		sock["/b"].Connect()
+		vsched.Await(func() bool { return up["/b"] == 1 })
+		switch state {
+		case "left":
+			sock["/a"].Connect()
+			vsched.Await(func() bool { return up["/a"] == 1 })
+			vrig.Settle(time.Second)
+			sock["/a"].Disconnect()
+		case "connect-pending":
+			sock["/a"].Connect()
+		}
+		vrig.Settle(time.Second)
+		vsched.SetExploring(true)
+		a := sock["/a"]
+		a.Volatile().Emit("ev", "volatile")
+		a.Emit("ev", "plain")
+		a.Volatile().Emit("eva", "volatile-ack", func(string) {})
+		vrig.Settle(2 * time.Second)
+		sock["/b"].Emit("ev", "b1")
+		if state == "connect-pending" {
+			vsched.Close(gate)
+		}
+		vrig.Settle(2 * time.Second)
+		sock["/b"].Emit("ev", "b2")
+		vrig.Settle(2 * time.Second)
+		return func() vx.Result {
+			var r vx.Result
+			r.Outcome = fmt.Sprintf("cdisc=%v got=%v up=%v", cdisc, got, up)
+			ctx := fmt.Sprintf("%s: '/a' was %s when the application emitted a volatile event, a plain event and a volatile one with an ack on it; client disconnects %v; server handlers saw %v; connect events %v; the server lists %d socket(s) in /b", name, state, cdisc, got, up, len(srv.Of("/b").Sockets()))
+			for _, d := range cdisc {
+				if strings.HasPrefix(d, "/b:") {
+					r.Violate("emit on a namespace that is not joined: the other namespace of the connection was disconnected", "%s", ctx)
+					return r
+				}
+			}
+			if fmt.Sprint(got["/b"]) != "[b1 b2]" {
+				r.Violate("emit on a namespace that is not joined: the other namespace stopped working", "%s", ctx)
+			}
+			for _, tag := range got["/a"] {
+				if strings.HasPrefix(tag, "volatile") && state != "connect-pending" {
+					r.Violate("emit on a namespace that is not joined: a volatile event emitted while the namespace was not joined was delivered", "%s", ctx)
+				}
+			}
+			return r
+		}
+	}
+	return sc
+}
+
 func scenarios(tier string) []*vx.Scenario {
 	b := 1
 	if tier == "thorough" {
@@ -986,6 +1071,9 @@ func scenarios(tier string) []*vx.Scenario {
 		sc := leaveAroundHandler("leave-around-connection-handler/"+how, how, b+2)
 		sc.Shards = 8
 		s = append(s, sc)
+	}
+	for _, st := range []string{"never-connected", "left", "connect-pending"} {
+		s = append(s, emitOnUnjoinedNamespace("emit-on-a-namespace-that-is-not-joined/"+st, st, b))
 	}
 	for _, k := range []int{1, 2, 3, 5} {
 		s = append(s, leaveWhileReplyInFlight(fmt.Sprintf("client-leaves-while-connect-reply-in-flight/disconnect-at-%d-quarters-of-the-latency", k), k, b))
